@@ -680,6 +680,243 @@ class GrammarGen:
         return p
 
 
+class ChildLineGen(GrammarGen):
+    """Programs whose control statements have SINGLE-statement bodies (the child lines of the line wrapper:
+    find_optimal_child_lines_solution decides whether a body continues its parent's line, and how `else if`, case arms,
+    `on E: T do` and anonymous routines are placed), with trivia — line comments, block comments, multi-line block comments,
+    compiler directives, conditional directives — between a controlling keyword and the body, empty statements in every
+    position that allows one, and runs of blank lines at line gaps.  Built as a token list; the layout is drawn afterwards."""
+
+    def trivia(self):
+        r = self.rng
+        c = r.random()
+        if c < 0.35:
+            return [r.choice(["// c", "// why", "//x", "/// doc"]) + "\n"]
+        if c < 0.55:
+            return [r.choice(["{c}", "(* c *)", "{ two words }"])]
+        if c < 0.7:
+            return ["{ first\n  second }"]
+        if c < 0.8:
+            return [r.choice(["{$R+}", "{$WARN SYMBOL_PLATFORM OFF}", "{$REGION 'x'}"])]
+        return ["\n"] + [r.choice(["// own", "{ own }"]) + "\n"]
+
+    def maybe_trivia(self, out, p=0.15):
+        if self.rng.random() < p:
+            out.extend(self.trivia())
+
+    def long_expr(self):
+        r = self.rng
+        c = r.random()
+        if c < 0.5:
+            return self.expr(1)
+        if c < 0.8:
+            return self.ident() + "(" + ", ".join(self.ident() + "x" * r.randrange(0, 14) for _ in range(r.randrange(2, 7))) + ")"
+        return " and ".join("(" + self.ident() + "x" * r.randrange(0, 10) + " " + r.choice(["=", "<>", "<"]) + " " + str(r.randrange(100)) + ")" for _ in range(r.randrange(2, 5)))
+
+    def cl_simple(self):
+        r = self.rng
+        c = r.random()
+        if c < 0.4:
+            return [self.ident() + " := " + self.long_expr()]
+        if c < 0.7:
+            return [self.ident() + "(" + ", ".join(self.expr(1) for _ in range(r.randrange(0, 4))) + ")"]
+        if c < 0.78:
+            return [r.choice(["Exit", "Break", "Continue", "inherited", "Exit(" + self.expr(2) + ")"])]
+        if c < 0.84:
+            return ["raise " + self.ident() + ".Create(" + self.expr(2) + ")"]
+        if c < 0.92:
+            return []          # the empty statement
+        return self.cl_anon()
+
+    def cl_anon(self):
+        r = self.rng
+        out = [r.choice([self.ident() + " :=", self.ident() + "(", self.ident() + "." + self.ident() + "(" + self.expr(2) + ",", "AA :=", "Foo(", "F("])]
+        opened = out[0].endswith("(") or out[0].endswith(",")
+        self.maybe_trivia(out, 0.08)
+        kind = r.choice(["procedure", "function"])
+        out.append(kind + r.choice(["", "", "(A: Integer)", "(const S: string; var N: Integer)"]) + (": Integer" if kind == "function" else ""))
+        for _ in range(r.choice([0, 0, 1, 2])):
+            out.append(r.choice(["var", "const"]))
+            for _ in range(r.randrange(1, 4)):
+                out.append(self.ident() + (": " + r.choice(["Integer", "string", "TFoo"]) if out[-1] != "const" and "=" not in out[-1] and not out[-1].endswith("= 1;") else " = 1") + ";")
+        out.append("begin")
+        self.maybe_trivia(out, 0.08)
+        for _ in range(r.randrange(0, 3)):
+            out.extend(self.cl_stmt(3))
+            out.append(";")
+        out.append("end")
+        if opened:
+            if r.random() < 0.3:
+                out.append(", " + self.expr(2))
+            out.append(")")
+        return out
+
+    def body(self, out, nest):
+        """the single statement after then / else / do / a case label"""
+        self.maybe_trivia(out)
+        c = self.rng.random()
+        if c < 0.25 and nest < self.max_depth:
+            out.append("begin")
+            self.maybe_trivia(out, 0.08)
+            for _ in range(self.rng.randrange(0, 3)):
+                out.extend(self.cl_stmt(nest + 1))
+                out.append(";")
+            out.append("end")
+        else:
+            out.extend(self.cl_stmt(nest + 1))
+
+    def cl_stmt(self, nest):
+        r = self.rng
+        c = r.random()
+        out = []
+        if nest >= self.max_depth or c < 0.35:
+            return self.cl_simple()
+        if c < 0.62:
+            # if / else-if chains; a `then` body that is itself an `if` without else is given no else here either (dangling else stays unambiguous)
+            n_else_if = r.choice([0, 0, 1, 1, 2, 3])
+            for k in range(n_else_if + 1):
+                out.append("if " + self.long_expr() + " then")
+                b = []
+                self.body(b, nest)
+                if any(t.startswith("if ") for t in b) and not (b and b[0] == "begin") and "begin" not in b:
+                    b = ["begin"] + b + ["end"]
+                out.extend(b)
+                if k < n_else_if:
+                    out.append("else")
+                    self.maybe_trivia(out, 0.25)
+            if r.random() < 0.5:
+                out.append("else")
+                self.body(out, nest)
+            return out
+        if c < 0.75:
+            out.append(r.choice(["while " + self.long_expr() + " do", "for " + self.ident() + " := " + self.expr(2) + " to " + self.expr(2) + " do",
+                                 "for " + self.ident() + " in " + self.ident() + " do", "with " + self.ident() + " do"]))
+            self.body(out, nest)
+            return out
+        if c < 0.9:
+            out.append("case " + self.expr(2) + " of")
+            self.maybe_trivia(out, 0.08)
+            for k in range(r.randrange(1, 4)):
+                out.append(r.choice(["%d:" % k, "%d..%d:" % (10 * k, 10 * k + 5), "tk%s, tk%s:" % (self.ident(), self.ident())]))
+                self.body(out, nest)
+                out.append(";")
+            if r.random() < 0.4:
+                out.append("else")
+                self.maybe_trivia(out, 0.1)
+                for _ in range(r.randrange(0, 3)):
+                    out.extend(self.cl_stmt(nest + 1))
+                    out.append(";")
+            out.append("end")
+            return out
+        if c < 0.96:
+            out.append("try")
+            out.extend(self.cl_stmt(nest + 1))
+            out.append(";")
+            if r.random() < 0.5:
+                out.append("finally")
+                out.extend(self.cl_stmt(nest + 1))
+                out.append(";")
+            else:
+                out.append("except")
+                for _ in range(r.randrange(1, 3)):
+                    out.append("on " + r.choice(["E: ", ""]) + r.choice(["Exception", "EFoo"]) + " do")
+                    self.body(out, nest)
+                    out.append(";")
+                if r.random() < 0.3:
+                    out.append("else")
+                    out.extend(self.cl_stmt(nest + 1))
+                    out.append(";")
+            out.append("end")
+            return out
+        out.append("repeat")
+        out.extend(self.cl_stmt(nest + 1))
+        out.append(";")
+        out.append("until " + self.expr(1))
+        return out
+
+    def program(self):
+        r = self.rng
+        toks = ["procedure " + self.ident() + ";", "begin"]
+        heads = {}     # token index -> (depth, kind) of the statements of the routine's own statement list and of its closer
+        for _ in range(r.randrange(1, 4)):
+            st = self.cl_stmt(0)
+            if st:
+                heads[len(toks)] = (1, "stmt")
+            toks.extend(st)
+            toks.append(";")
+        heads[len(toks)] = (0, "closer")
+        toks.append("end;")
+        self.marks = []
+        # layout: after a `//` comment a newline is already there; `;` hugs its statement most of the time
+        style = r.random()
+        out = []
+        for i, t in enumerate(toks):
+            if i in heads:
+                self.marks.append((sum(len(x) for x in out),) + heads[i])
+            out.append(t)
+            if i + 1 == len(toks):
+                out.append("\n")
+                break
+            nxt = toks[i + 1]
+            if t.endswith("\n"):
+                out.append(r.choice(["", "", "  ", "\n", "\n\n\n  "]))
+                continue
+            if nxt in (";", ")") or nxt.startswith(", "):
+                out.append("" if r.random() < 0.9 else r.choice([" ", "\n"]))
+                continue
+            if t.endswith("(") :
+                out.append("" if r.random() < 0.7 else r.choice([" ", "\n    "]))
+                continue
+            c = r.random()
+            if style < 0.3:          # everything on one line unless forced
+                out.append(" " if c < 0.95 else "\n")
+            elif c < 0.45:
+                out.append(" ")
+            elif c < 0.9:
+                out.append("\n" + " " * r.randrange(0, 7))
+            elif c < 0.95:
+                out.append("\n\n" + " " * r.randrange(0, 5))
+            else:
+                out.append("\n\n\n\n")
+        return "".join(out)
+
+
+def child_line_program(rng, with_marks=False):
+    g = ChildLineGen(rng, max_depth=3)
+    t = g.program()
+    return (t, g.marks) if with_marks else t
+
+
+CP_CONTEXTS = [  # (name, text before the body, text after the body)
+    ("then", "if A then", ";"), ("then_else", "if A then", " else Foo;"), ("else", "if A then Foo else", ";"), ("else_in_chain", "if A then Foo else if B then Bar else", ";"),
+    ("while", "while A do", ";"), ("for", "for I := 0 to 9 do", ";"), ("forin", "for X in Y do", ";"), ("with", "with A do", ";"),
+    ("arm", "case A of 1:", "; end;"), ("arm2", "case A of 1: Foo; 2, 3:", "; else Bar; end;"), ("on", "try Foo; except on E: Exception do", "; end;"),
+    ("then_in_arm", "case A of 1: if B then", "; end;"), ("assign_anon", "A := procedure begin if B then", "; end;"), ("arg_anon", "Foo(procedure begin while B do", "; end);"),
+]
+CP_TRIVIA = [("none", " "), ("line", " // c\n"), ("block", " {c} "), ("mlblock", " { a\n b } "), ("directive", " {$R+} "), ("ifdef", " {$IFDEF X}\n"),
+             ("ownline", "\n// own\n"), ("ownblock", "\n{ own }\n"), ("two", " // c\n// d\n")]
+CP_BODIES = [("simple", "Bar(1)"), ("empty", ""), ("begin", "begin Bar; Baz end"), ("begin_empty", "begin end"), ("if", "if C then Bar"), ("if_else", "if C then Bar else Baz"),
+             ("case", "case C of 1: Bar; end"), ("try", "try Bar; finally Baz; end"), ("repeat", "repeat Bar until C"), ("raise", "raise E.Create('x')"),
+             ("anon", "Bar(procedure begin Baz; end)"), ("assign", "Result := Bar + Baz"), ("inherited", "inherited"), ("goto_label", "Lbl: Bar")]
+CP_GAPS = [("", ""), ("blank3", "\n\n\n")]
+
+
+def child_placement_matrix():
+    """every controlling context x every trivia between the controlling token and the body x every kind of body (the child
+    line whose placement find_optimal_child_lines_solution decides) x a run of blank lines before the body or not"""
+    for cn, pre, post in CP_CONTEXTS:
+        for tn, tr in CP_TRIVIA:
+            for bn, body in CP_BODIES:
+                for gn, gap in CP_GAPS:
+                    close = "\n{$ENDIF}" if tn == "ifdef" else ""
+                    yield ("procedure P;\nbegin\n  " + pre + tr + gap + body + close + post + "\nend;\n", "%s/%s/%s/%s" % (cn, tn, bn, gn))
+
+
+def placement_marks(text):
+    """(char offset, depth, kind) of the controlling statement (a statement of the routine's statement list) and of the routine's closer"""
+    return [(text.index("begin\n  ") + 8, 1, "stmt"), (text.rindex("end;"), 0, "closer")]
+
+
 def grammar_program(rng):
     return GrammarGen(rng).program()
 
